@@ -74,7 +74,11 @@ def expandCore : Core → Core
 /-- what the SQL parser sees: unparenthesised raw text is inlined into the surrounding list -/
 def expandFlat : List (Joiner × Nat × Core) → List (Joiner × Nat × Core)
   | [] => []
-  | (j, n, .splice _ f) :: r => setFirst j n (expandFlat f) ++ expandFlat r
+  | (j, n, .splice t f) :: r =>
+    -- (a raw text without any item — never produced by a real string — stays a single opaque item)
+    (match expandFlat f with
+      | [] => [(j, n, .splice t [])]
+      | x :: xs => setFirst j n (x :: xs)) ++ expandFlat r
   | (j, n, .atom i p t) :: r => (j, n, .atom i p t) :: expandFlat r
   | (j, n, .paren f) :: r => (j, n, .paren (expandFlat f)) :: expandFlat r
 end
